@@ -826,7 +826,7 @@ def run(ctx):
     else:
         maxlen, nsl = 3, 64
         storages = STORAGES
-        bound, cap = 2, 40000
+        bound, cap = 2, 8000
     for sl in range(nsl):
         tasks.append(("A", (nsl, sl, maxlen, FRONTENDS, storages, ctx.seed)))
     cmax, climits = (2, (1, 2, 3)) if ctx.tier == "quick" else (3, (1, 2, 3, 4))
